@@ -2224,7 +2224,7 @@ void Analyser::AnalyserImpl::analyseEquationUnits(const AnalyserEquationAstPtr &
         } else if (!isDimensionlessUnitsMaps(unitsMaps)) {
             issueDescription = "The units in " + expression(ast) + " may not be equivalent. "
                                + expressionUnits(ast->mPimpl->mOwnedLeftChild, unitsMaps, userUnitsMaps, unitsMultipliers) + " while "
-                               + expression(ast->mPimpl->mOwnedRightChild->mPimpl->mOwnedRightChild, false) + " may result in " + expression(ast->mPimpl->mOwnedRightChild, false) + " having different units.";
+                               + expression(powerData.mExponentAst, false) + " may result in " + expression(ast->mPimpl->mOwnedRightChild, false) + " having different units.";
         }
     } break;
     case AnalyserEquationAst::Type::PIECEWISE:
